@@ -12,6 +12,7 @@ import Qentem.Proofs.StrToNumNegIter
 import Qentem.Proofs.StrToNumPrefix
 import Qentem.Proofs.StrToNumFrac
 import Qentem.Proofs.StrToNumNegAll
+import Qentem.Proofs.StrToNumCloseAll
 /-! C09 — text to number: integers exact, reals within one ulp, out-of-range rejected. -/
 namespace Qentem.Props.C09
 open Qentem.StrToNum Qentem.Round Qentem.Generated.StrToNum
@@ -544,10 +545,10 @@ example : (strToNum [49,50,51,52,53,54,55,56,57,48,49,50,51,52,53,54,55,56,57,48
 
 /-! ### Negative-exponent numerals with an integer mantissa: within one ulp (proved)
 
-`[+-]? d₁…d_n (e|E) - k₁…k_j`, `d₁ ≠ 0`, `n ≤ 19`, 1..8 exponent digits, with `2^(k/27) ≤ 16·v`: every
-mantissa when `k ≤ 134`, every mantissa `≥ 257` up to the underflow limit (for smaller mantissas with
-larger exponents the proved pipeline error is not small enough — those stay with the open
-`real_within_one_ulp` and the oracle). The value is `v / 10^k`.
+`[+-]? d₁…d_n (e|E) - k₁…k_j`, `d₁ ≠ 0`, `n ≤ 19`, 1..8 exponent digits, **every mantissa** (round 5: for
+`2^(k/27) ≤ 16·v` the analytic pipeline error bound; for the short mantissas with long exponents, where that bound is
+too weak, monotonicity in the mantissa and a 776-pair table evaluated by the kernel —
+`Proofs/StrToNumNegClose.powerOfNegativeTen_close_all`). The value is `v / 10^k`.
 
 * whole numeral consumed;
 * `k > n + 324`: NotANumber — and then `v/10^k < 2^-1074`, below the smallest subnormal;
@@ -560,7 +561,7 @@ theorem real_within_one_ulp_negexp (c : List Nat) (o e : Nat) (sign : List Nat) 
     (hks : AllDigits ks) (hk0 : ks ≠ []) (hk8 : ks.length ≤ 8)
     (hu : unitsAt c e o (sign ++ (d1 :: xs ++ [m] ++ [45] ++ ks)))
     (hend : endsAt c e (o + sign.length + 1 + xs.length + 1 + 1 + ks.length) isDigit)
-    (hvk : 2 ^ (decVal ks / 27) ≤ 16 * decVal (d1 :: xs)) (hkpos : decVal ks ≠ 0) :
+    (hkpos : decVal ks ≠ 0) :
     let v := decVal (d1 :: xs)
     let k := decVal ks
     let n := xs.length + 1
@@ -586,7 +587,7 @@ theorem real_within_one_ulp_negexp (c : List Nat) (o e : Nat) (sign : List Nat) 
   have hdec : decide (decVal ks ≠ 0) = true := by simp [hkpos]
   rw [hdec]
   have hv0 : 0 < v := Nat.lt_of_lt_of_le (Nat.pow_pos (by decide)) (decVal_ge d1 xs h1)
-  exact realResult_neg _ v n k fin hv0 (fun _ => hvk) hv64 hvlt (by omega) (Nat.lt_of_lt_of_le hk (by decide))
+  exact realResult_neg_all _ v n k fin hv0 hv64 hvlt (by omega) (Nat.lt_of_lt_of_le hk (by decide))
 
 /-- `12345e-3`, `-5000e-310` (subnormal), `999e-400` (below the smallest subnormal: rejected) -/
 example : (strToNum [49,50,51,52,53,101,45,51] 0 8).map (fun r => (r.kind, ulpDist (r.bits % 2 ^ 63) (nearestMag 12345 (10 ^ 3)))) = some (.real, 0) := by decide
@@ -605,8 +606,8 @@ smallest subnormal; otherwise it is a `Real` with the text's sign whose magnitud
 Class: first digit non-zero, the mantissa including its dot fits the 19-unit window (≤ 18 digits),
 the fraction is not the single digit `0` (`1.0` takes the "just zero at the end" branch and is left to
 the oracle), exponent of 1..8 digits. Without an exponent every such numeral is covered; with one,
-the side condition `2^(X/27) ≤ 16·v` applies to negative net exponents (all mantissas for
-`X ≤ 134`, mantissas `≥ 257` always). -/
+every mantissa is covered too (round 5: `powerOfNegativeTen_close_all` — analytic bound above a width
+threshold, a 776-pair kernel table below it). -/
 theorem real_within_one_ulp_frac_end (c : List Nat) (o e : Nat) (sign : List Nat) (d1 : Nat) (xs ys : List Nat)
     (he : e < 2 ^ 32) (hs : sign = [] ∨ sign = [43] ∨ sign = [45]) (h1 : isNonZeroDigit d1 = true)
     (hxs : AllDigits xs) (hys : AllDigits ys) (hy0 : ys ≠ []) (hy48 : ys ≠ [48]) (hlen : xs.length + ys.length ≤ 17)
@@ -678,10 +679,7 @@ theorem real_within_one_ulp_frac_exp (c : List Nat) (o e : Nat) (sign : List Nat
     (hm : m = 101 ∨ m = 69) (hes : es = [] ∨ es = [43] ∨ es = [45]) (hks : AllDigits ks) (hk0 : ks ≠ [])
     (hk8 : ks.length ≤ 8)
     (hu : unitsAt c e o (sign ++ (d1 :: xs ++ [46] ++ ys) ++ [m] ++ (es ++ ks)))
-    (hend : endsAt c e (o + sign.length + 1 + xs.length + 1 + ys.length + 1 + es.length + ks.length) isDigit)
-    (hcond : (netExp false (decVal ks) (decide (es = [45])) ys.length).2 = true →
-      (netExp false (decVal ks) (decide (es = [45])) ys.length).1 ≤ xs.length + 1 + ys.length + 324 →
-      2 ^ ((netExp false (decVal ks) (decide (es = [45])) ys.length).1 / 27) ≤ 16 * decVal (d1 :: xs ++ ys)) :
+    (hend : endsAt c e (o + sign.length + 1 + xs.length + 1 + ys.length + 1 + es.length + ks.length) isDigit) :
     ClassOutcome (decide (sign = [45])) (decVal (d1 :: xs ++ ys))
       (netExp false (decVal ks) (decide (es = [45])) ys.length).1
       (netExp false (decVal ks) (decide (es = [45])) ys.length).2
@@ -741,16 +739,21 @@ theorem real_within_one_ulp_frac_exp (c : List Nat) (o e : Nat) (sign : List Nat
     split
     · simp; omega
     · split <;> simp <;> omega
-  have := realResult_class (decide (sign = [45])) (decVal (d1 :: (xs ++ ys))) (xs.length + 1 + ys.length)
+  have := realResult_class_all (decide (sign = [45])) (decVal (d1 :: (xs ++ ys))) (xs.length + 1 + ys.length)
     (netExp false (decVal ks) (decide (es = [45])) ys.length).1 (netExp false (decVal ks) (decide (es = [45])) ys.length).2
     (o + sign.length + 1 + xs.length + 1 + ys.length + 1 + es.length + ks.length) hv0 hv64 hvlo hvhi (by omega) (by omega) hX
-    (by simpa using hcond)
   simpa using this
 
 /-- `1.25e3` (net exponent +1), `6.02e-5`, `-9.99e-330` (below the smallest subnormal: rejected) -/
 example : (strToNum [49,46,50,53,101,51] 0 6).map (fun r => (r.kind, r.offset, ulpDist (r.bits % 2 ^ 63) (nearestMag (125 * 10 ^ 1) 1))) = some (.real, 6, 0) := by decide
 example : (strToNum [54,46,48,50,101,45,53] 0 7).map (fun r => (r.kind, r.offset, ulpDist (r.bits % 2 ^ 63) (nearestMag 602 (10 ^ 7)))) = some (.real, 7, 0) := by decide
 example : (strToNum [45,57,46,57,57,101,45,51,51,48] 0 10).map (·.kind) = some .notANumber := by decide
+
+/-- **`negexp_one_ulp_every_mantissa`**: `powerOfNegativeTen` is within one ulp of the correctly rounded value for
+every mantissa `1 ≤ num < 2^64` and every `x < 344` (normal and subnormal results) -/
+theorem negexp_one_ulp_every_mantissa (num x : Nat) (hn0 : 0 < num) (hn : num < 2 ^ 64) (hx : x < 344) :
+    ∃ p, powerOfNegativeTen num x = some p ∧ ulpDist p (nearestMag num (10 ^ x)) ≤ 1 :=
+  powerOfNegativeTen_close_all num x hn0 hn hx
 
 /-! ### Correct rounding on the negative-exponent path, every mantissa -/
 
